@@ -1,18 +1,23 @@
 #!/bin/bash
-# lib/seedtest.sh <seeded-dir> [PROP ...]  — applies <seeded-dir>/patch.diff to /repo, runs the quick
-# checks of the given properties (default: the one in meta.json), then restores /repo.
+# lib/seedtest.sh <seeded-dir> [PROP ...]  — tries a seeded change against the checks WITHOUT touching
+# /repo's working tree: a scratch worktree of /repo's HEAD gets <seeded-dir>/patch.diff, the checks run
+# with VERIF_REPO pointing at it, evidence and replays go to a scratch directory (printed), and the
+# worktree is removed afterwards. (Equivalent to `git -C /repo apply`, run, `git -C /repo checkout -- .`,
+# but safe while a sweep is reading /repo.)
 set -u
 D=$(cd "$1" && pwd); shift
 PROPS="$*"
 [ -z "$PROPS" ] && PROPS=$(python3 -c "import json,sys; print(json.load(open('$D/meta.json'))['property'])")
-cd /repo || exit 2
-if [ -n "$(git status --porcelain)" ]; then echo "REFUSING: /repo has local changes"; exit 2; fi
-restore() { git -C /repo checkout -q -- . ; git -C /repo clean -fdq -- controllers pkg api cmd >/dev/null 2>&1; }
-trap restore EXIT
-git apply "$D/patch.diff" || { echo "PATCH DOES NOT APPLY"; exit 2; }
-(go build ./... ) || { echo "PATCHED TREE DOES NOT BUILD"; exit 2; }
+WT=$(mktemp -d /tmp/seedtest.XXXXXX)
+OUTD=$(mktemp -d /tmp/seedtest-out.XXXXXX)
+cleanup() { git -C /repo worktree remove --force "$WT" >/dev/null 2>&1; rm -rf "$WT"; [ -n "${KEEP_OUT:-}" ] || rm -rf "$OUTD"; }
+trap cleanup EXIT
+git -C /repo worktree add -q --detach "$WT" HEAD || exit 2
+git -C "$WT" apply "$D/patch.diff" || { echo "PATCH DOES NOT APPLY"; exit 2; }
+(cd "$WT" && GOPROXY=off GOSUMDB=off GOTOOLCHAIN=local go build ./... ) || { echo "PATCHED TREE DOES NOT BUILD"; exit 2; }
 for P in $PROPS; do
-  out=$(VERIF_SEED=${VERIF_SEED:-1} /verif/check $P ${TIER:-quick} 2>&1); rc=$?
+  out=$(VERIF_REPO="$WT" VERIF_OUT="$OUTD" VERIF_SEED=${VERIF_SEED:-1} /verif/check $P ${TIER:-quick} 2>&1); rc=$?
   echo "== $P rc=$rc: $(echo "$out" | grep -c '^VIOLATION') violation line(s); $(echo "$out" | tail -1)"
   echo "$out" | grep -A1 '^VIOLATION' | grep 'rule=' | sed 's/^ */     /' | sort | uniq -c | head -8
 done
+if [ -n "${KEEP_OUT:-}" ]; then echo "evidence and replays kept in $OUTD"; fi
